@@ -1,4 +1,3 @@
 pending = {
  "C13": "claimed (part) in DESIGN.md; the check is not built yet in this commit",
- "C20": "claimed in DESIGN.md; the check is not built yet in this commit",
 }
